@@ -437,8 +437,11 @@ func withOracle(c hx.Case) hx.Case {
 				pre = append(pre, map[string]any{"compiler": jstr(sm, "compiler"), "regex": compilerTable(jstr(sm, "compiler"), ps, ss)})
 			}
 		} else {
-			name := c01CompilerNames[caseHash(c)%len(c01CompilerNames)]
-			pre = []any{map[string]any{"compiler": name, "regex": compilerTable(name, ps, ss)}}
+			// first the negating compiler (its verdict differs from the default one on every visited string, so the case shows a
+			// cache that carries engines over even when replayed alone in a fresh process), then one of the two others
+			name := []string{"icase", "lit"}[caseHash(c)%2]
+			pre = []any{map[string]any{"compiler": "negate", "regex": compilerTable("negate", ps, ss)},
+				map[string]any{"compiler": name, "regex": compilerTable(name, ps, ss)}}
 		}
 		c["pre"] = pre
 	} else {
